@@ -79,8 +79,11 @@ def thr(callers, stop=-1, epi=(('shut', 0), ('close', 0))):
     return {'callers': [list(c) for c in callers], 'stop': stop, 'epi': [list(e) for e in epi]}
 
 
-def mk(threads, invs, sched=(), plain=0):
-    return {'thr': threads, 'invs': [list(i) for i in invs], 'sched': list(sched), 'plain': plain}
+def mk(threads, invs, sched=(), plain=None, cache='dict'):
+    # plain: the default-dict re-run is comparable exactly when the schedule is the non-preemptive default
+    if plain is None:
+        plain = 0 if list(sched) else 1
+    return {'thr': threads, 'invs': [list(i) for i in invs], 'sched': list(sched), 'plain': plain, 'cache': cache}
 
 
 FULL = (('shut', 0), ('close', 0))
@@ -192,7 +195,7 @@ def explore(case, pbound=2, max_runs=2000):
 
 def _explore_job(args):
     case, pb, cap = args
-    return [dict(case, sched=s) for s in explore(case, pb, cap)]
+    return [dict(case, sched=s, plain=0) for s in explore(case, pb, cap)]
 
 
 def exhaustive_bases(tier):
@@ -287,7 +290,10 @@ def rand_case(rnd, big=False):
         if rnd.random() >= stay:
             last = rnd.randrange(nT)
         sched.append(last)
-    return mk(threads, invs, sched)
+    r = rnd.random()
+    if r < 0.12:
+        sched = []                       # non-preemptive default schedule: compared with the default-dict run
+    return mk(threads, invs, sched, cache='map' if rnd.random() < 0.25 else 'dict')
 
 
 def gen_random(tier, seed, n_quick=2400, n_thorough=30000):
@@ -363,7 +369,8 @@ def shrink_candidates(case):
 
 def distribution(cases, obs):
     d = dict(threads={}, callers={}, keys={}, events=0, proxies=0, cancels=0, failures=0, loop_stops_pending=0,
-             timeouts_60s=0, ends={})
+             timeouts_60s=0, ends={}, default_dict_reruns=0, default_dict_same=0, mutablemapping_cache=0,
+             sync_raises=0, longer_than_60s=0)
     for c, o in zip(cases, obs):
         if not isinstance(o, dict) or 'tr' not in o:
             continue
@@ -374,6 +381,12 @@ def distribution(cases, obs):
         nk = len({cl[0] for t in c['thr'] for cl in t['callers']})
         d['keys'][nk] = d['keys'].get(nk, 0) + 1
         tr = o['tr']
+        if c.get('plain'):
+            d['default_dict_reruns'] += 1
+            d['default_dict_same'] += 1 if o.get('plain_same') else 0
+        d['mutablemapping_cache'] += 1 if c.get('cache') == 'map' else 0
+        d['sync_raises'] += sum(1 for (dur, _) in c['invs'] if dur == -2)
+        d['longer_than_60s'] += sum(1 for (dur, _) in c['invs'] if dur > SAFETY)
         d['events'] += len(tr)
         d['proxies'] += sum(1 for e in tr if e[0] == 'proxy')
         d['cancels'] += sum(1 for e in tr if e[0] == 'cancel')
